@@ -47,3 +47,30 @@ package writer
 //@   ensures rl.has.peer ==> (forall i int :: 0 <= i && i < len(r.Frame.RawKeys()) && !r.Frame.ShouldExcludeRaw(i) && r.Frame.RawKeys()[i].Leaseholder() != rl.host && r.Frame.RawKeys()[i].Leaseholder() != node.KeyFree ==> (exists j int :: 0 <= j && j < len(oReqs[peerSenderAddr].Frame.RawKeys()) && oReqs[peerSenderAddr].Frame.RawKeys()[j] == r.Frame.RawKeys()[i] && __eq(oReqs[peerSenderAddr].Frame.RawSeries()[j], r.Frame.RawSeries()[i])))
 //@   ensures forall a address.Address :: (a != gatewayWriterAddr || !rl.has.gateway) && (a != freeWriterAddr || !rl.has.free) && (a != peerSenderAddr || !rl.has.peer) ==> __in(oReqs, a) == old(__in(oReqs, a)) && __eq(oReqs[a], old(oReqs[a]))
 //@   modifies oReqs
+
+//@ import dframe "github.com/synnaxlabs/synnax/pkg/distribution/framer/frame"
+
+//@ # The peer sender: a write request goes to the address of every leaseholder that has a visible
+//@ # series in the frame, carrying exactly that leaseholder's part of the frame (only its keys, and
+//@ # every visible series of its keys); any other command goes, whole, to every peer address.
+//@ # No other address is written (a leaseholder without an address writes the empty address).
+//@ func (rs *peerSwitchSender) _switch(_ context.Context, r Request, oReqs map[address.Address]Request) (err error)
+//@   pragma abstract ShouldExcludeRaw
+//@   requires oReqs != nil && len(r.Frame.RawKeys()) == len(r.Frame.RawSeries())
+//@   # distinct peers have distinct, non-empty addresses
+//@   requires forall n1 node.Key, n2 node.Key :: __in(rs.addresses, n1) && __in(rs.addresses, n2) && n1 != n2 ==> rs.addresses[n1] != rs.addresses[n2]
+//@   requires forall n node.Key :: __in(rs.addresses, n) ==> rs.addresses[n] != ""
+//@   ensures err == nil
+//@   ensures r.Command == CommandWrite ==> (forall i int :: 0 <= i && i < len(r.Frame.RawKeys()) && !r.Frame.ShouldExcludeRaw(i) && __in(rs.addresses, r.Frame.RawKeys()[i].Leaseholder()) ==> __in(oReqs, rs.addresses[r.Frame.RawKeys()[i].Leaseholder()]) && oReqs[rs.addresses[r.Frame.RawKeys()[i].Leaseholder()]].Command == r.Command && oReqs[rs.addresses[r.Frame.RawKeys()[i].Leaseholder()]].SeqNum == r.SeqNum && (exists j int :: 0 <= j && j < len(oReqs[rs.addresses[r.Frame.RawKeys()[i].Leaseholder()]].Frame.RawKeys()) && oReqs[rs.addresses[r.Frame.RawKeys()[i].Leaseholder()]].Frame.RawKeys()[j] == r.Frame.RawKeys()[i] && __eq(oReqs[rs.addresses[r.Frame.RawKeys()[i].Leaseholder()]].Frame.RawSeries()[j], r.Frame.RawSeries()[i])))
+//@   ensures r.Command == CommandWrite ==> (forall n node.Key, j int :: __in(rs.addresses, n) && (!old(__in(oReqs, rs.addresses[n])) || !__eq(oReqs[rs.addresses[n]], old(oReqs[rs.addresses[n]]))) && 0 <= j && j < len(oReqs[rs.addresses[n]].Frame.RawKeys()) ==> oReqs[rs.addresses[n]].Frame.RawKeys()[j].Leaseholder() == n)
+//@   ensures r.Command == CommandWrite ==> (forall a address.Address :: a != "" && (forall i int :: 0 <= i && i < len(r.Frame.RawKeys()) && !r.Frame.ShouldExcludeRaw(i) && __in(rs.addresses, r.Frame.RawKeys()[i].Leaseholder()) ==> rs.addresses[r.Frame.RawKeys()[i].Leaseholder()] != a) ==> __in(oReqs, a) == old(__in(oReqs, a)) && __eq(oReqs[a], old(oReqs[a])))
+//@   ensures r.Command != CommandWrite ==> (forall n node.Key :: __in(rs.addresses, n) ==> __in(oReqs, rs.addresses[n]) && __eq(oReqs[rs.addresses[n]], r))
+//@   ensures r.Command != CommandWrite ==> (forall a address.Address :: (forall n node.Key :: __in(rs.addresses, n) ==> rs.addresses[n] != a) ==> __in(oReqs, a) == old(__in(oReqs, a)) && __eq(oReqs[a], old(oReqs[a])))
+//@   modifies oReqs
+//@   loop 0 invariant r.Command == old(r.Command) && r.SeqNum == old(r.SeqNum)
+//@   loop 0 invariant forall n node.Key :: __seen(n) && __in(rs.addresses, n) ==> __in(oReqs, rs.addresses[n]) && oReqs[rs.addresses[n]].Command == r.Command && oReqs[rs.addresses[n]].SeqNum == r.SeqNum && __eq(oReqs[rs.addresses[n]].Frame, __rm[map[node.Key]dframe.Frame](0)[n])
+//@   loop 0 invariant forall a address.Address :: a != "" && (forall n node.Key :: __seen(n) && __in(rs.addresses, n) ==> rs.addresses[n] != a) ==> __in(oReqs, a) == old(__in(oReqs, a)) && __eq(oReqs[a], old(oReqs[a]))
+//@   loop 0 modifies oReqs
+//@   loop 1 invariant forall n node.Key :: __seen(n) ==> __in(oReqs, rs.addresses[n]) && __eq(oReqs[rs.addresses[n]], r)
+//@   loop 1 invariant forall a address.Address :: (forall n node.Key :: __seen(n) ==> rs.addresses[n] != a) ==> __in(oReqs, a) == old(__in(oReqs, a)) && __eq(oReqs[a], old(oReqs[a]))
+//@   loop 1 modifies oReqs
